@@ -185,6 +185,7 @@ func main() {
 		scs = append(scs, scenario(cfg{KeepAlive: true, MaxRetries: n, Depth: d - 1, SendMayFail: true}))
 	}
 	addConnLevel(r, &scs)
+	addServerLevel(r, &scs)
 	sum := mcx.Explore(r, scs, mcx.Config{Wall: ev.Pick(r, 3*time.Minute, 20*time.Minute)})
 	mcx.Report(r, scs, sum)
 	r.Set("rule", "every history up to the depth over {recv, wait P/2, tick(+P/2), tick(+P-1ms), tick(+P+1ms), tick(+2P+1ms), pong(current ping), late pong(previous ping)} applied to the real Monitor/KeepAlive (wired as options.WithKeepAlive does) with a virtual clock; reference: tick fires iff now > last received + P; plain monitor closes iff fires; keep-alive closes exactly at a firing tick at which more than maxRetries consecutive detections are uncredited, credit = any received message (pong or other); distinct outcome = distinct history + close count")
